@@ -19,9 +19,9 @@ run_demo() {
   else echo "no demo"; fi
 }
 echo "== demo WITH change" >> $OUT; run_demo >> $OUT
-git stash -q
-echo "== demo WITHOUT change" >> $OUT; run_demo >> $OUT
-git stash pop -q
 git diff > $SD/patch.confirmed.diff
+git apply -R $SD/patch.confirmed.diff
+echo "== demo WITHOUT change" >> $OUT; run_demo >> $OUT
+git apply $SD/patch.confirmed.diff
 echo "== done" >> $OUT
 cat $OUT
